@@ -3,32 +3,36 @@
 (the `Drop` drain loop never met a CQE flagged `more`), for every configuration whose extracted `Drop`
 statement order is drain → close ring → free in-flight keys.
 -/
-import Compio.Lemmas.KeyLifeStepsA
+import Compio.Lemmas.KeyLifeStepsB
 import Compio.Lemmas.KeyLifeHonest
 
 namespace Compio.KeyLife
 
 open Compio.PollQueues
 
-theorem driverCancel_hazard (s : State) (id : Nat) (o : Op) : (driverCancel s id o).hazard = s.hazard := by
-  unfold driverCancel iourCancel pollCancel
+theorem driverCancel_hazard (c : Cfg) (s : State) (id : Nat) (o : Op) (posts : List (Nat × Bool × Res)) :
+    (driverCancel c s id o posts).hazard = s.hazard := by
+  unfold driverCancel
   split
-  · split <;> rfl
-  · split <;> rfl
+  · exact (iourCancel_fields c s id posts).2.2.2.2
+  · unfold pollCancel; split <;> rfl
 
-theorem cancelIssue_hazard (s : State) (id : Nat) (o : Op) : (cancelIssue s id o).hazard = s.hazard := by
+theorem cancelIssue_hazard (c : Cfg) (s : State) (id : Nat) (o : Op) (posts : List (Nat × Bool × Res)) :
+    (cancelIssue c s id o posts).hazard = s.hazard := by
   unfold cancelIssue
   simp only [driverCancel_hazard]
 
-theorem cancelKey_hazard (s : State) (id : Nat) (o : Op) : (cancelKey s id o).hazard = s.hazard := by
+theorem cancelKey_hazard (c : Cfg) (s : State) (id : Nat) (o : Op) (posts : List (Nat × Bool × Res)) :
+    (cancelKey c s id o posts).hazard = s.hazard := by
   unfold cancelKey
   split
   · rfl
   · split
     · rfl
-    · exact cancelIssue_hazard s id o
+    · exact cancelIssue_hazard c s id o posts
 
-theorem cancelTok_hazard (s : State) (id : Nat) (o : Op) : (cancelTok s id o).hazard = s.hazard := by
+theorem cancelTok_hazard (c : Cfg) (s : State) (id : Nat) (o : Op) (posts : List (Nat × Bool × Res)) :
+    (cancelTok c s id o posts).hazard = s.hazard := by
   unfold cancelTok
   split
   · rfl
@@ -50,30 +54,30 @@ theorem hazard_step {c : Cfg} {s s' : State} {e : Event} (h : step c s e = some 
         all_goals left; rfl
       · cases h
     · cases h
-  | userCancel id =>
+  | userCancel id posts =>
     left
     simp only [step] at h
     split at h
     · split at h
-      · obtain rfl := Option.some.inj h; exact cancelKey_hazard _ _ _
+      · obtain rfl := Option.some.inj h; exact cancelKey_hazard _ _ _ _ _
       · cases h
     · cases h
-  | cloneCancel id =>
+  | cloneCancel id posts =>
     left
     simp only [step] at h
     split at h
     · split at h
-      · obtain rfl := Option.some.inj h; exact cancelKey_hazard _ _ _
+      · obtain rfl := Option.some.inj h; exact cancelKey_hazard _ _ _ _ _
       · cases h
     · cases h
-  | tokenCancel id =>
+  | tokenCancel id posts =>
     left
     simp only [step] at h
     split at h
     · split at h
       · split at h
         · obtain rfl := Option.some.inj h; rfl
-        · obtain rfl := Option.some.inj h; exact cancelTok_hazard _ _ _
+        · obtain rfl := Option.some.inj h; exact cancelTok_hazard _ _ _ _ _
       · cases h
     · cases h
   | fdEvent fd rd wr r =>
@@ -152,14 +156,14 @@ theorem step_inv {c : Cfg} (hc : GoodCfg c) {s s' : State} {e : Event} (hi : Inv
   | pushBlocking => exact inv_pushBlocking hi h
   | pushWait k fd d => exact inv_pushWait hi h
   | pushReady k fd d r => exact inv_pushReady hi h
-  | userCancel id => exact inv_userCancel hi h
-  | cloneCancel id => exact inv_cloneCancel hi h
+  | userCancel id posts => exact inv_userCancel hi h
+  | cloneCancel id posts => exact inv_cloneCancel hi h
   | userDrop id => exact inv_userDrop hi h
   | userPop id => exact inv_userPop hi h
   | popMulti id => exact inv_popMulti hi h
   | tokenRegister id => exact inv_tokenRegister hi h
   | tokenDrop id => exact inv_tokenDrop hi h
-  | tokenCancel id => exact inv_tokenCancel hi h
+  | tokenCancel id posts => exact inv_tokenCancel hi h
   | pushNotifier => exact inv_pushNotifier hi h
   | submit => exact inv_submit hi h
   | pollEntries => exact inv_pollEntries hi h
